@@ -599,6 +599,11 @@ def maxVal : List Value → Value
     | .null => v
     | m => if v.cmp m == .lt then m else v
 
+/-- the quotient `n / d` in lowest terms (so that equal averages are equal values) -/
+def ratNorm (n : Int) (d : Nat) : Value :=
+  let g := Nat.gcd n.natAbs d
+  if g = 0 then .rat n d else .rat (n / (g : Int)) (d / g)
+
 /-- an aggregate over the argument values of one group (`countStar` gets one value per row, ignored) -/
 def aggregate (D : Defects) (f : AggFn) (vs : List Value) : Except Err Value :=
   match f with
@@ -613,7 +618,7 @@ def aggregate (D : Defects) (f : AggFn) (vs : List Value) : Except Err Value :=
     | [] => .ok .null
     | ws => match sumInts D ws with
       | .error x => .error x
-      | .ok s => .ok (.rat s ws.length)
+      | .ok s => .ok (ratNorm s ws.length)
   | .min => .ok (minVal (nonNull vs))
   | .max => .ok (maxVal (nonNull vs))
 
@@ -627,6 +632,8 @@ inductive From where
 structure Agg where
   fn : AggFn
   arg : Expr        -- ignored for `countStar`
+  /-- `AGG(DISTINCT arg)`: every distinct non-NULL value counts once -/
+  distinct : Bool := false
   deriving Repr, Inhabited
 
 structure Select where
@@ -636,12 +643,15 @@ structure Select where
   /-- aggregate query iff `aggs ≠ []`; its output is the group keys followed by the aggregates -/
   groupBy : List Expr
   aggs : List Agg
-  /-- projection of a non-aggregate query; `none` = `*` -/
+  /-- projection; `none` = `*`.  In an aggregate query (GROUP BY or aggregates present) the items — like HAVING —
+      are expressions over the *aggregate row*: the group keys followed by the aggregates -/
   items : Option (List Expr)
   /-- ORDER BY: (position in the output, ascending?) -/
   orderBy : List (Nat × Bool)
   limit : Option Nat
   offset : Option Nat
+  /-- HAVING, over the aggregate row (aggregate queries only) -/
+  having : Option Expr := none
   deriving Repr, Inhabited
 
 structure TableDef where
@@ -727,6 +737,15 @@ def projectRow (D : Defects) (tys : List Ty) (items : List Expr) (row : Row) : E
     | .error x => .error x
     | .ok v => castTo (inferTy tys e) v) items
 
+/-- distinct values, first occurrences -/
+def dedupV : List Value → List Value
+  | [] => []
+  | v :: vs => v :: (dedupV vs).filter (· != v)
+
+/-- the argument values an aggregate sees: all of them, or the distinct non-NULL ones -/
+def aggInput (a : Agg) (vs : List Value) : List Value :=
+  if a.distinct && a.fn != .countStar then dedupV (nonNull vs) else vs
+
 def aggOutTy (tys : List Ty) (a : Agg) : Option Ty :=
   match a.fn with
   | .min | .max => some (inferTy tys a.arg)
@@ -743,7 +762,7 @@ def aggRow (D : Defects) (tys : List Ty) (keys : List Expr) (aggs : List Agg)
             | .countStar => .ok Value.null
             | _ => eval D tys row a.arg) g.2 with
         | .error x => .error x
-        | .ok vs => match aggregate D a.fn vs with
+        | .ok vs => match aggregate D a.fn (aggInput a vs) with
           | .error x => .error x
           | .ok v => match aggOutTy tys a with
             | some ty => castTo ty v
@@ -772,16 +791,37 @@ def groupsOf (noKeys : Bool) (keyed : List (List Value × Row)) : List (List Val
     (fun g => (g.1, g.2.map (fun (p : List Value × Row) => p.2)))
   if noKeys && groups.isEmpty then [([], [])] else groups
 
-/-- projection or aggregation step -/
+/-- is this an aggregate query? -/
+def Select.isAgg (q : Select) : Bool := !q.aggs.isEmpty || !q.groupBy.isEmpty
+
+/-- column types of the aggregate row: the keys, then COUNT → BIGINT, SUM / AVG → (untyped number, here BIGINT),
+    MIN / MAX → type of the argument -/
+def aggTys (tys : List Ty) (keys : List Expr) (aggs : List Agg) : List Ty :=
+  keys.map (inferTy tys) ++ aggs.map (fun a => match a.fn with
+    | .min | .max => inferTy tys a.arg
+    | _ => .bigint)
+
+/-- projection of rows (`none` = `*`) -/
+def projectAll (D : Defects) (tys : List Ty) (items : Option (List Expr)) (rows : List Row) : Except Err (List Row) :=
+  match items with
+  | none => .ok rows
+  | some items => mapE (projectRow D tys items) rows
+
+/-- projection or aggregation step.  An aggregate query groups, computes the aggregate row of every group (keys,
+    then aggregates), keeps the groups on which HAVING is TRUE, and projects the select list over the aggregate row. -/
 def produce (D : Defects) (tys : List Ty) (q : Select) (rows : List Row) : Except Err (List Row) :=
-  if q.aggs.isEmpty then
-    match q.items with
-    | none => .ok rows
-    | some items => mapE (projectRow D tys items) rows
+  if !q.isAgg then projectAll D tys q.items rows
   else
     match keyRows D tys q.groupBy rows with
     | .error x => .error x
-    | .ok keyed => mapE (aggRow D tys q.groupBy q.aggs) (groupsOf q.groupBy.isEmpty keyed)
+    | .ok keyed =>
+      match mapE (aggRow D tys q.groupBy q.aggs) (groupsOf q.groupBy.isEmpty keyed) with
+      | .error x => .error x
+      | .ok arows =>
+        let atys := aggTys tys q.groupBy q.aggs
+        match applyWhere D atys q.having arows with
+        | .error x => .error x
+        | .ok kept => projectAll D atys q.items kept
 
 /-- ORDER BY (on output positions), DISTINCT, OFFSET/LIMIT -/
 def finish (nullsFirst : Bool) (q : Select) (rows : List Row) : List Row :=
